@@ -537,3 +537,22 @@ def r10(rr, repo):
 def r11(rr, repo):
     from .c09 import r8 as c09r8
     c09r8(rr, repo)
+
+
+@rule('C02.R12', "what is published is what the buffers held when send() was called: every message handed to a ZeroMQ socket is copied by the call (pyzmq's default) - a zero-copy send (copy=False, or a tracker "
+                 "nobody waits for) lets the I/O thread read the caller's bytearray / array later, after the caller has started to fill it with the next frame, which the docstring of send() explicitly allows")
+def r12(rr, repo):
+    za = anchors(repo)
+    sends = [c for c in q.calls_in(za.mod.tree) if isinstance(c.func, ast.Attribute) and c.func.attr in ('send_multipart', 'send', 'send_string', 'send_json', 'send_pyobj') and
+             U(c.func.value).split('.')[-1] in ('pub', 'push', 'sock', 'socket', 'pull', 'sub')]
+    rr.floor('ZeroMQ socket sends in zeromq.py', len(sends), 5, za.mod, za.mod.tree)
+    for c in sends:
+        kw = q.kwarg(c, 'copy')
+        pos = c.args[2] if c.func.attr == 'send_multipart' and len(c.args) >= 3 else None      # send_multipart(msg_parts, flags=0, copy=True, track=False)
+        cp = kw if kw is not None else pos
+        if cp is None:
+            rr.ob('the socket send copies its payload', True, za.mod, c, witness=U(c)[:80], key=f'send-copies|{qualname(enclosing_function(c))}')
+        elif isinstance(cp, ast.Constant):
+            rr.ob('the socket send copies its payload', cp.value is not False and cp.value != 0, za.mod, c, witness=U(c)[:100], key=f'send-copies|{qualname(enclosing_function(c))}')
+        else:
+            rr.unresolved('the copy mode of a socket send is not a constant', za.mod, c, witness=U(c)[:100], key=f'send-copies|{qualname(enclosing_function(c))}')
